@@ -735,7 +735,14 @@ def c6_rearm(fb, rep, clause='C10.6'):
         exits = _loop_exit_guards(st)
         # the only way out is the return inside the empty test
         rets = [(b, i, e) for b, i, e in st.events() if e.get('k') == 'ret']
-        okr = bool(rets) and all(any('empty' in x and not x.startswith('!') for x in G.guards_of(st, set(st.blocks), b)) for b, i, e in rets)
+        def only_when_empty(b_):
+            is_q2 = lambda t: t.get('k') == 'call' and t.get('recv') is not None and 'map' in ((t['recv'].get('t') or '') + (t['recv'].get('rc') or ''))
+            conds = list(G.guard_trees(st, set(st.blocks), b_)) + G._whole_conditions(st, set(st.blocks), b_)
+            recvs2 = {ap(n_['recv']) or show(n_['recv']) for c_, _s in conds for n_ in walk(c_) if isinstance(n_, dict) and is_q2(n_)}
+            pend2 = lambda r_, n_: (lambda t: (('v', 1 if n_ == 0 else 0) if cname(t).split('::')[-1] == 'empty' else ('v', n_) if cname(t).split('::')[-1] == 'size' else None)
+                                    if is_q2(t) and (ap(t['recv']) or show(t['recv'])) == r_ else None)
+            return any(all(G.excluded_under(st, b_, pend2(r_, k_)) for k_ in (1, 2, 9)) and not G.excluded_under(st, b_, pend2(r_, 0)) for r_ in recvs2)
+        okr = bool(rets) and all(only_when_empty(b) for b, i, e in rets)
         rep.ob(clause, 'K2 loop shape', 'setOptions returns only when no option is pending', okr and all('empty' in x and not x.startswith('!') for x in exits),
                st.where, 'loop exits: %s' % exits, st.sname)
 
